@@ -186,3 +186,35 @@ def _hc_consistent_corruption():
 
     seq = (('ann', 0, 10), ('flush',), ('wd', 0, None))
     return _patched(OutgoingRIB, '_del_from_rib_impl', lambda self, nlri, attrs, route_index: None, seq)
+
+
+# ---------------------------------------------------------------------------------------------------------------------
+# the peer side of "what the peer holds is the reported Adj-RIB-Out" also depends on the send loop of Peer._main, which
+# decides WHEN withdraws may go out: the statements of that loop (extracted and executed unmodified by the C11 harness),
+# a session in sync, then operations -- for both slice sizes of the loop
+@bounded('C04', 'operations-after-first-window')
+def operations_after_first_window(tier, seed):
+    from . import c11
+
+    work = []
+    for after in ((('wd', 0, None),), (('ann', 1, 10), ('wd', 1, None)), (('ann', 2, 5),), (('wd', 0, None), ('ann', 0, 30)), (('ann', 0, 30), ('wd', 0, None))):
+        for before in ((), (('ann', 1, 10),), (('ann', 1, 10), ('ann', 2, 5))):
+            for per in (25, 1):
+                work.append((before, len(before), (), per, after))
+    fails = []
+    for w in work:
+        f = c11.one_case(*w)
+        if f:
+            fails.append(f)
+    return {'evaluations': len(work), 'distinct_nontrivial': len(work), 'bound': f'{len(work)} histories: 0-2 API routes, a (re-)established session brought in sync by the real send statements of Peer._main, then 1-2 operations (withdraw of a configured / API route, announce, change), for 25 and 1 routes per loop iteration: the peer table equals the intended and the reported table', 'rule': 'one case = (history, operations after sync, slice size)', 'samples': [{'after_resync': [['wd', 0, None]], 'routes_per_iteration': 1}], 'failures': fails}
+
+
+from .registry import replayer as _replayer  # noqa: E402
+
+
+@_replayer('C04', 'operations-after-first-window')
+def _replay_after(f):
+    from . import c11
+
+    i = f['input']
+    return c11.one_case([tuple(o) for o in i['before']], i['cut_after_messages'], [tuple(o) for o in i['while_down']], i.get('routes_per_iteration', 25), [tuple(o) for o in i.get('after_resync', [])]) is None
